@@ -78,10 +78,12 @@ Qed.
 Lemma ble_inv_drain : forall w ep sess srv nreq L,
     binv ep sess (l_seal L) (l_acc L) -> ble_inv (ble_drain ep sess srv nreq L w).
 Proof.
-  induction w as [|[[id n] cont] r IH]; intros ep sess srv nreq L H; cbn [ble_drain].
+  induction w as [|[[[id n] cont] wf] r IH]; intros ep sess srv nreq L H; cbn [ble_drain].
   - exact H.
   - destruct sess as [[enc dec]|].
-    + unfold ble_inv. cbn -[nids ble_frags]. apply binv_send. exact H.
+    + destruct (match wf with Some j => if Nat.ltb j (ble_frags n) then Some j else None | None => None end).
+      * apply IH. cbn -[nids ble_frags]. eapply binv_close. apply binv_send. exact H.
+      * unfold ble_inv. cbn -[nids ble_frags]. apply binv_send. exact H.
     + apply IH. exact H.
 Qed.
 
@@ -115,7 +117,8 @@ Lemma ble_inv_step : forall s e, ble_inv s -> ble_inv (ble_step s e).
 Proof.
   intros s e H. destruct e; cbn [ble_step]; try exact H; try (apply ble_inv_deliver_at; exact H);
     try (apply ble_inv_abort; exact H).
-  - destruct (b_infl s); [exact H|]. apply ble_inv_drain. exact H.
+  - unfold ble_send. destruct (b_infl s); [exact H|]. apply ble_inv_drain. exact H.
+  - unfold ble_send. destruct (b_infl s); [exact H|]. apply ble_inv_drain. exact H.
   - destruct (b_infl s); [|exact H]. destruct (b_ep s) eqn:E; [exact H|].
     apply ble_inv_deliver. exact H.
   - destruct (b_infl s); [|exact H]. apply ble_inv_deliver. exact H.
@@ -180,17 +183,41 @@ Proof. intros. unfold under_ep_o. apply filter_snoc_false. apply Nat.eqb_neq. as
 Definition ble_dead (s : ble) (e : nat) : Prop := e < b_ep s \/ (e = b_ep s /\ b_sess s = None).
 
 (* starting waiting requests cannot touch a dead epoch *)
+Lemma under_ep_app_other : forall e l b, (forall x : nid, In x b -> fst (fst x) <> e) -> under_ep e (l ++ b) = under_ep e l.
+Proof.
+  intros e l b H. unfold under_ep. rewrite filter_app, (filter_none _ _ b); [apply app_nil_r|].
+  intros x I. apply Nat.eqb_neq. apply H. exact I.
+Qed.
+
+Lemma firstn_In' : forall A (l : list A) j x, In x (firstn j l) -> In x l.
+Proof.
+  intros A l. induction l as [|a r IH]; intros [|j] x I; cbn in I; try contradiction.
+  destruct I as [<-|I]; [left; reflexivity|right; exact (IH j x I)].
+Qed.
+
+Lemma nids_ep : forall e d n k x, In x (nids (e, d) n k) -> fst (fst x) = e.
+Proof. intros e d n k x I. apply nids_in in I. destruct I as (E & _). destruct x as [[e0 d0] n0]. cbn in *. congruence. Qed.
+
 Lemma ble_dead_drain : forall w ep sess srv nreq L e,
     (e < ep \/ (e = ep /\ sess = None)) ->
     let s' := ble_drain ep sess srv nreq L w in
     ble_dead s' e /\ lfrozen e L (b_log s').
 Proof.
-  induction w as [|[[id n] cont] r IH]; intros ep sess srv nreq L e D; cbn [ble_drain].
+  induction w as [|[[[id n] cont] wf] r IH]; intros ep sess srv nreq L e D; cbn [ble_drain].
   - split; [exact D|apply lfrozen_refl].
   - destruct sess as [[enc dec]|].
     + destruct D as [D|[_ D]]; [|discriminate].
-      split; [left; exact D|]. unfold lfrozen. cbn -[under_ep under_ep_o nids ble_frags].
-      rewrite !under_ep_app_nids_other by lia. repeat split.
+      destruct (match wf with Some j => if Nat.ltb j (ble_frags n) then Some j else None | None => None end) as [j|].
+      * destruct (IH ep None srv nreq
+                    (add_out [(ep, id, RFail)] (add_wire (firstn j (nids (ep, C2A) enc (ble_frags n)))
+                                                         (add_seal (nids (ep, C2A) enc (ble_frags n)) L))) e (or_introl D)) as (A & B).
+        split; [exact A|]. eapply lfrozen_trans; [|exact B].
+        unfold lfrozen. cbn -[under_ep under_ep_o nids ble_frags firstn].
+        rewrite !under_ep_app_other; [repeat split| |].
+        -- intros x I. apply firstn_In' in I. apply nids_ep in I. lia.
+        -- intros x I. apply nids_ep in I. lia.
+      * split; [left; exact D|]. unfold lfrozen. cbn -[under_ep under_ep_o nids ble_frags].
+        rewrite !under_ep_app_nids_other by lia. repeat split.
     + destruct (IH ep None srv nreq (add_out [(ep, id, RFail)] L) e D) as (A & B).
       split; [exact A|]. eapply lfrozen_trans; [apply lfrozen_out|exact B].
 Qed.
@@ -242,7 +269,11 @@ Proof.
   destruct ev; cbn [ble_step]; try (split; [exact D|apply lfrozen_refl]); try apply DA;
     try (apply ble_dead_abort; exact D).
   - (* Send *)
-    destruct (b_infl s).
+    unfold ble_send. destruct (b_infl s).
+    + split; [exact D|apply lfrozen_refl].
+    + apply ble_dead_drain. exact D.
+  - (* SendW *)
+    unfold ble_send. destruct (b_infl s).
     + split; [exact D|apply lfrozen_refl].
     + apply ble_dead_drain. exact D.
   - (* ReplayOld *)
@@ -273,11 +304,15 @@ Lemma ble_finv_drain : forall w ep sess srv nreq L,
     (forall e, failed_in L e = true -> e < ep \/ (e = ep /\ sess = None)) ->
     ble_finv (ble_drain ep sess srv nreq L w).
 Proof.
-  induction w as [|[[id n] cont] r IH]; intros ep sess srv nreq L H; cbn [ble_drain].
+  induction w as [|[[[id n] cont] wf] r IH]; intros ep sess srv nreq L H; cbn [ble_drain].
   - exact H.
   - destruct sess as [[enc dec]|].
-    + intros e F. cbn -[nids ble_frags] in F. rewrite failed_in_wire, failed_in_seal in F.
-      destruct (H e F) as [D|[_ D]]; [left; exact D|discriminate].
+    + destruct (match wf with Some j => if Nat.ltb j (ble_frags n) then Some j else None | None => None end) as [j|].
+      * apply IH. intros e F. apply failed_in_out in F. destruct F as [F|(o & [<-|[]] & E1 & _)].
+        -- rewrite failed_in_wire, failed_in_seal in F. destruct (H e F) as [D|[_ D]]; [left; exact D|discriminate].
+        -- right. split; [symmetry; exact E1|reflexivity].
+      * intros e F. cbn -[nids ble_frags] in F. rewrite failed_in_wire, failed_in_seal in F.
+        destruct (H e F) as [D|[_ D]]; [left; exact D|discriminate].
     + apply IH. intros e F. apply failed_in_out in F. destruct F as [F|(o & [<-|[]] & E1 & _)].
       * apply H. exact F.
       * right. split; [symmetry; exact E1|reflexivity].
@@ -328,7 +363,8 @@ Proof.
   { intro i. unfold ble_deliver_at. destruct (b_infl s) eqn:Q; [|exact F].
     apply (ble_finv_deliver (ble_setsrv s (Nat.max (b_srv s) (S i)))). exact F. }
   destruct ev; cbn [ble_step]; try exact F; try apply DA; try (apply ble_finv_abort; exact F).
-  - destruct (b_infl s); [exact F|]. apply ble_finv_drain. exact F.
+  - unfold ble_send. destruct (b_infl s); [exact F|]. apply ble_finv_drain. exact F.
+  - unfold ble_send. destruct (b_infl s); [exact F|]. apply ble_finv_drain. exact F.
   - destruct (b_infl s); [|exact F]. destruct (b_ep s) eqn:E; [exact F|]. apply ble_finv_deliver. exact F.
   - destruct (b_infl s) eqn:Q; [|exact F]. apply (ble_finv_deliver (ble_setsrv s (S (b_srv s)))). exact F.
   - destruct (b_infl s); [apply ble_finv_abort; exact F|].
